@@ -366,7 +366,8 @@ static json read_one(CK_SESSION_HANDLE s, CK_OBJECT_HANDLE o, CK_ULONG t)
 		e.push_back(rv); e.push_back(nullptr); e.push_back(at.ulValueLen);
 		return e;
 	}
-	if (is_tpl_attr(t))
+	// (a length that is not a multiple of sizeof(CK_ATTRIBUTE) cannot be an attribute array: read it as plain bytes below)
+	if (is_tpl_attr(t) && at.ulValueLen % sizeof(CK_ATTRIBUTE) == 0)
 	{
 		size_t n = at.ulValueLen / sizeof(CK_ATTRIBUTE);
 		std::vector<CK_ATTRIBUTE> inner(n);
@@ -374,6 +375,8 @@ static json read_one(CK_SESSION_HANDLE s, CK_OBJECT_HANDLE o, CK_ULONG t)
 		at.pValue = n ? &inner[0] : NULL;
 		CALL(C_GetAttributeValue(s, o, &at, 1));
 		std::vector<std::vector<unsigned char> > bufs(n);
+		// a stored value that is not really a template (damaged store) fills the array with arbitrary bytes: do not follow them
+		for (size_t i = 0; i < n && rv == CKR_OK; i++) if (inner[i].ulValueLen > (1u << 20) || inner[i].pValue != NULL) rv = CKR_GENERAL_ERROR;
 		if (rv == CKR_OK)
 		{
 			for (size_t i = 0; i < n; i++) { bufs[i].resize(inner[i].ulValueLen + 1); inner[i].pValue = &bufs[i][0]; }
